@@ -23,7 +23,8 @@ template <class C> struct Runner {
         if (A::NormalizeSyntax(out) != URI_SUCCESS) { A::FreeUriMembers(out); return false; }
         int rc = 0; txt = to_text<C>(*out, &rc); return rc == URI_SUCCESS;
     }
-    void run_ref(const Str &rt, int only_base = -1) {
+    void run_ref(const Str &rt, int only_base = -1) { SanWatch sw; run_ref2(rt, only_base); if (sw.tripped()) ctx->violation("", enc(rt, ""), "AddressSanitizer reported an invalid access"); }
+    void run_ref2(const Str &rt, int only_base) {
         lc->refs++; ref::RUri rr; if (!ref::decompose(rt, rr)) { ctx->harness_error("bad reference " + rt); return; }
         Parsed R, NR; parse(R, rt); parse(NR, rt);
         if (!R.ok || !NR.ok) { ctx->harness_error("reference does not parse: " + rt); return; }
